@@ -259,6 +259,10 @@ def run(ctx, chk, tier="quick"):
                        "epoch is .timestamp() of tz.localize(strptime(text, format))",
                        key="%s|%s|epoch-expr" % (g.module.relpath, g.qualname),
                        why="a naive or LMT-offset datetime converts to a different UTC instant " + why)
+            elif _is_offset_form(g, gflow, core, prov):
+                chk.ob("C11.O1", True, where, "stored epoch = %s" % ast.unparse(core)[:110],
+                       "(naive - utcoffset of the localized datetime - 1970-01-01).total_seconds()",
+                       key="%s|%s|epoch-expr" % (g.module.relpath, g.qualname))
             elif isinstance(core, ast.BinOp):
                 chk.ob("C11.O1", False, where, "stored epoch = %s" % ast.unparse(ex),
                        "epoch is the bare .timestamp() of the localized datetime",
@@ -266,6 +270,33 @@ def run(ctx, chk, tier="quick"):
                        why="arithmetic on the timestamp moves every instant")
             else:
                 chk.indeterminate("C11.O1", where, "unrecognised epoch expression %s" % ast.unparse(ex)[:120])
+        # the zone's offset must be looked up for every row: inside one iteration of the row loop no path
+        # from the loop header to the yield avoids the statement that localizes the row's own datetime
+        for y in yields:
+            loop = None
+            a = getattr(y, "parent", None)
+            while a is not None and a is not g.node:
+                if isinstance(a, (ast.For, ast.While)):
+                    loop = a
+                    break
+                a = getattr(a, "parent", None)
+            locs = [c for c in ast.walk(g.node) if isinstance(c, ast.Call) and isinstance(c.func, ast.Attribute)
+                    and ((c.func.attr == "localize" and isinstance(c.func.value, ast.Name) and (g.fq, c.func.value.id) in prov)
+                         or (c.func.attr == "replace" and any(k.arg == "tzinfo" for k in c.keywords)))]
+            if loop is None or not locs:
+                continue
+            cfg = gflow.cfg
+            h = cfg.node(loop)
+            yn = cfg.node_containing(y)
+            members = cfg.loop_members.get(h, set())
+            outside = set(cfg.nodes()) - members
+            lnodes = {cfg.node_containing(c) for c in locs}
+            per_row = yn is not None and yn not in cfg.reachable_from(h, avoiding=outside | lnodes)
+            chk.ob("C11.O1", per_row, where_of(g, locs[0]),
+                   "the row's datetime is localized %s" % ("on every iteration before the row is produced" if per_row else "only on some iterations (a path from the loop header to the yield avoids it)"),
+                   "each timestamp is converted with the offset of its own instant",
+                   key="%s|%s|localize-per-row" % (g.module.relpath, g.qualname),
+                   why="an offset cached from an earlier row is stale across a DST transition: later rows of that day are stored one hour off")
         # O3: only needed if the format can parse fractional seconds
         fmt = None
         for n in ast.walk(g.node):
@@ -306,6 +337,54 @@ def run(ctx, chk, tier="quick"):
                                "refusals propagate to the caller", key="%s|%s|swallow" % (f.module.relpath, f.qualname),
                                why="a swallowed refusal lets the load continue and commit")
     chk.floor("time-zone API uses classified", uses, 2)
+
+
+def _is_offset_form(g, gflow, core, prov):
+    """(naive - offset - EPOCH0).total_seconds() with offset from tz.localize(naive).utcoffset()."""
+    if not (isinstance(core, ast.Call) and isinstance(core.func, ast.Attribute) and core.func.attr == "total_seconds" and not core.args):
+        return False
+    recv = core.func.value
+    terms = []
+
+    def flat(n, sign):
+        if isinstance(n, ast.BinOp) and isinstance(n.op, ast.Sub):
+            flat(n.left, sign)
+            flat(n.right, -sign)
+        elif isinstance(n, ast.BinOp) and isinstance(n.op, ast.Add):
+            flat(n.left, sign)
+            flat(n.right, sign)
+        else:
+            terms.append((sign, n))
+
+    flat(recv, 1)
+    if len(terms) != 3:
+        return False
+    pos = [n for sg, n in terms if sg > 0]
+    neg = [n for sg, n in terms if sg < 0]
+    if len(pos) != 1 or len(neg) != 2:
+        return False
+    naive_ok = "strptime" in ast.unparse(gflow.expand(pos[0]))
+    off_ok = epoch0_ok = False
+    for n in neg:
+        txt = ast.unparse(n)
+        # module constant datetime(1970, 1, 1)
+        v = g.module.constants.get(n.id) if isinstance(n, ast.Name) else n
+        if v is not None and "1970, 1, 1" in ast.unparse(v) and "tzinfo" not in ast.unparse(v):
+            epoch0_ok = True
+            continue
+        # offset: some reaching definition is <tz>.localize(<naive>).utcoffset()
+        if isinstance(n, ast.Name):
+            for d in gflow.reaching_defs(n) or ():
+                st = gflow.cfg.stmt_of.get(d)
+                if isinstance(st, ast.Assign):
+                    t = ast.unparse(st.value)
+                    if ".localize(" in t and t.endswith(".utcoffset()"):
+                        c = st.value.func.value if isinstance(st.value, ast.Call) else None
+                        if isinstance(c, ast.Call) and isinstance(c.func.value, ast.Name) and prov.get((g.fq, c.func.value.id)) == "pytz":
+                            off_ok = True
+        elif ".localize(" in txt and txt.endswith(".utcoffset()"):
+            off_ok = True
+    return naive_ok and off_ok and epoch0_ok
 
 
 def _first_element(v):
